@@ -168,21 +168,30 @@ def run(call: GeneratorCall) -> Module:
         # Check for circular dependencies.
         # Note this uses a hash-set of `GeneratorCall`s, so only hashable ones get checked.
         if call in the_cache.pending:
+            the_cache.stack.pop()  # This (inner) call is over; the outer one remains in flight.
             msg = f"Invalid self referencing/ circular dependency in `{call}`"
             raise RuntimeError(msg)
         the_cache.pending.add(call)
 
-    # Check that the call has a valid instance of the generator's parameter-class
-    if not isinstance(call.params, call.gen.Params):
-        msg = f"Invalid Generator Call {call}: {call.gen.Params} instance required, got {call.params}"
-        raise RuntimeError(msg)
+    try:
+        # Check that the call has a valid instance of the generator's parameter-class
+        if not isinstance(call.params, call.gen.Params):
+            msg = f"Invalid Generator Call {call}: {call.gen.Params} instance required, got {call.params}"
+            raise RuntimeError(msg)
 
-    # The main event: Run the generator-function
-    m = call.gen.func(call.params)
+        # The main event: Run the generator-function
+        m = call.gen.func(call.params)
 
-    if not isinstance(m, Module):
-        msg = f"Generator {call.gen} returned {m}, must return `Module`."
-        raise RuntimeError(msg)
+        if not isinstance(m, Module):
+            msg = f"Generator {call.gen} returned {m}, must return `Module`."
+            raise RuntimeError(msg)
+
+    except BaseException:
+        # The call failed. It is no longer in flight, and may be made again.
+        the_cache.stack.pop()
+        if call.gen.enable_cache:
+            the_cache.pending.discard(call)
+        raise
 
     # Give the result a reference back to the generating `Call`
     m._generated_by = call
